@@ -179,7 +179,7 @@ GENERIC_RULES_DOC = [
     "static_cast<void>(x); -> (void)x;",
     "constexpr -> const ; 'static const(expr)' local -> const",
     "this-> -> self-> ; bare identifier with trailing underscore -> self-><id> (member naming convention of bluetoe), unless excluded per unit",
-    "std::min/std::max -> BT_MIN/BT_MAX (macros, typed by usual arithmetic conversions like the templates once both arguments have one type)",
+    "std::min/std::max -> BT_MIN/BT_MAX (macros; both arguments have one type in the code base); std::min<T>(a,b) -> BT_MIN_T(T,a,b) converts both to T first",
 ]
 
 _CAST_RE = re.compile(r'\b(static_cast|reinterpret_cast|const_cast)\s*<')
@@ -240,8 +240,10 @@ def generic_rewrite(text, fired, member_exclude=(), member_extra=(), no_members=
     text = sub('assert', r'\bassert\s*\(', 'BT_ASSERT(', text)
     text = sub('static-constexpr', r'\bstatic\s+constexpr\b', 'const', text)
     text = sub('constexpr', r'\bconstexpr\b', 'const', text)
-    text = sub('std::min', r'\bstd\s*::\s*min\s*(?:<[^<>;(){}]*>)?\s*\(', 'BT_MIN(', text)
-    text = sub('std::max', r'\bstd\s*::\s*max\s*(?:<[^<>;(){}]*>)?\s*\(', 'BT_MAX(', text)
+    text = sub('std::min<T>', r'\bstd\s*::\s*min\s*<\s*([^<>;(){}]*?)\s*>\s*\(', r'BT_MIN_T(\1, ', text)
+    text = sub('std::max<T>', r'\bstd\s*::\s*max\s*<\s*([^<>;(){}]*?)\s*>\s*\(', r'BT_MAX_T(\1, ', text)
+    text = sub('std::min', r'\bstd\s*::\s*min\s*\(', 'BT_MIN(', text)
+    text = sub('std::max', r'\bstd\s*::\s*max\s*\(', 'BT_MAX(', text)
     text = sub('this->', r'\bthis\s*->\s*', 'self->', text)
     if not no_members:
         excl = set(member_exclude)
